@@ -77,7 +77,7 @@ def handle (line : String) : String :=
   | (st, some (c, i, f)) =>
     if st.bad then "bad-op" else
     let db : DB := ⟨st.rows, st.links, st.cache⟩
-    let flags := " | " ++ (if unmixed st.S then "unmixed" else "mixed")
+    let flags := " | -"
     match destroy st.S f db c i with
     | .ok db' => "ok | " ++ showDB db db' ++ flags
     | .refused db' => "refused | " ++ showDB db db' ++ flags
